@@ -58,25 +58,33 @@ Definition g_update (s : st) (id : string) (new old : tstate) : st :=
 Definition ensure_ent (s : st) (tg : string) : st :=
   match alookup (ents s) tg with Some _ => s | None => set_ents s (aupsert (ents s) tg {| refcnt := 0; quit := [] |}) end.
 
+(* field updaters *)
+Definition with_sto (v : option view) (t : trec) : trec :=
+  {| tid := tid t; ttarget := ttarget t; auto_off := auto_off t; mem := mem t; sto := v; started := started t; reg := reg t |}.
+Definition with_mem (v : option view) (t : trec) : trec :=
+  {| tid := tid t; ttarget := ttarget t; auto_off := auto_off t; mem := v; sto := sto t; started := started t; reg := reg t |}.
+Definition reset_counters (t : trec) : trec :=
+  {| tid := tid t; ttarget := ttarget t; auto_off := auto_off t; mem := mem t; sto := sto t; started := 0; reg := (reg t - 1)%Z |}.
+Definition bump_reg (d : Z) (t : trec) : trec :=
+  {| tid := tid t; ttarget := ttarget t; auto_off := auto_off t; mem := mem t; sto := sto t; started := started t; reg := (reg t + d)%Z |}.
+Definition now_running (t : trec) : trec :=
+  {| tid := tid t; ttarget := ttarget t; auto_off := auto_off t; mem := Some {| v_state := SRunning; v_reason := false |}; sto := sto t;
+     started := (started t + 1)%Z; reg := reg t |}.
+Definition set_mem (s : st) (id : string) (v : option view) : st := upd s id (with_mem v).
+Definition set_sto (s : st) (id : string) (v : option view) : st := upd s id (with_sto v).
+
 (* run the task's quit function if registered (stop its collection readers if they were started, deregister
    the rpc-channel reader), drop the reference; release the entity at zero *)
 Definition release (s : st) (id tg : string) : st :=
   match alookup (ents s) tg with
   | None => s
   | Some e =>
-      let '(s1, e1) :=
-        if mem_str id (quit e)
-        then (upd s id (fun t => {| tid := tid t; ttarget := ttarget t; auto_off := auto_off t; mem := mem t; sto := sto t;
-                                    started := 0; reg := (reg t - 1)%Z |}),
-              {| refcnt := (refcnt e - 1)%Z; quit := rm id (quit e) |})
-        else (s, e) in
-      if (refcnt e1 =? 0)%Z then set_ents s1 (aremove (ents s1) tg) else set_ents s1 (aupsert (ents s1) tg e1)
+      if mem_str id (quit e)
+      then let s1 := upd s id reset_counters in
+           let e1 := {| refcnt := (refcnt e - 1)%Z; quit := rm id (quit e) |} in
+           if (refcnt e1 =? 0)%Z then set_ents s1 (aremove (ents s1) tg) else set_ents s1 (aupsert (ents s1) tg e1)
+      else if (refcnt e =? 0)%Z then set_ents s (aremove (ents s) tg) else set_ents s (aupsert (ents s) tg e)
   end.
-
-Definition set_mem (s : st) (id : string) (v : option view) : st :=
-  upd s id (fun t => {| tid := tid t; ttarget := ttarget t; auto_off := auto_off t; mem := v; sto := sto t; started := started t; reg := reg t |}).
-Definition set_sto (s : st) (id : string) (v : option view) : st :=
-  upd s id (fun t => {| tid := tid t; ttarget := ttarget t; auto_off := auto_off t; mem := mem t; sto := v; started := started t; reg := reg t |}).
 
 (* store.UpdateTaskState: Some s' on success *)
 Definition update_state (s : st) (id : string) (new : tstate) (guard : list tstate) (reason : bool) (fget fput : bool) : option st :=
@@ -98,54 +106,42 @@ Definition start (s : st) (id : string) (ignore : bool) (fposget fget fput : boo
   match find_task s id with
   | None => (s, false)
   | Some t =>
-      let tg := ttarget t in
       (* no entity for the target: newReplicateEntity has to build one, which fails in the harness' world
          (no source etcd / MQ); the harness injects entities only between API calls *)
-      if match alookup (ents s) tg with None => true | Some _ => false end then (s, false)
-      else if fposget then (s, false)
-      else
-        (* channel reader registered, quit function stored, reference taken *)
-        let s1 := upd s id (fun t => {| tid := tid t; ttarget := ttarget t; auto_off := auto_off t; mem := mem t; sto := sto t;
-                                        started := started t; reg := (reg t + 1)%Z |}) in
-        let s1 := match alookup (ents s1) tg with
-                  | Some e => set_ents s1 (aupsert (ents s1) tg {| refcnt := (refcnt e + 1)%Z; quit := add id (quit e) |})
-                  | None => s1 end in
-        let after :=
-          if ignore then Some s1
-          else update_state s1 id SRunning [SInitial; SPaused] false fget fput in
-        match after with
-        | None =>
-            (* roll the registration back *)
-            let s2 := upd s1 id (fun t => {| tid := tid t; ttarget := ttarget t; auto_off := auto_off t; mem := mem t; sto := sto t;
-                                             started := started t; reg := (reg t - 1)%Z |}) in
-            let s2 := match alookup (ents s2) tg with
-                      | Some e => set_ents s2 (aupsert (ents s2) tg {| refcnt := (refcnt e - 1)%Z; quit := rm id (quit e) |})
-                      | None => s2 end in
-            (s2, false)
-        | Some s2 =>
-            let s3 := upd s2 id (fun t => {| tid := tid t; ttarget := ttarget t; auto_off := auto_off t;
-                                             mem := Some {| v_state := SRunning; v_reason := false |}; sto := sto t;
-                                             started := (started t + 1)%Z; reg := reg t |}) in
-            (s3, true)
-        end
+      match alookup (ents s) (ttarget t) with
+      | None => (s, false)
+      | Some e =>
+          if fposget then (s, false)
+          else
+            (* channel reader registered, quit function stored, reference taken *)
+            let s1 := set_ents (upd s id (bump_reg 1))
+                        (aupsert (ents s) (ttarget t) {| refcnt := (refcnt e + 1)%Z; quit := add id (quit e) |}) in
+            match (if ignore then Some s1 else update_state s1 id SRunning [SInitial; SPaused] false fget fput) with
+            | None =>
+                (* the state update failed: the registration is rolled back *)
+                (set_ents (upd s1 id (bump_reg (-1)))
+                   (aupsert (ents s1) (ttarget t) {| refcnt := (refcnt e + 1 - 1)%Z; quit := rm id (add id (quit e)) |}), false)
+            | Some s2 => (upd s2 id now_running, true)
+            end
+      end
   end.
 
 (* pauseTaskWithReason: (state, store update succeeded) *)
 Definition pause_with (s : st) (id : string) (guard : list tstate) (fget fput : bool) : st * bool :=
-  let r := update_state s id SPaused guard true fget fput in
-  let s1 := match r with Some s' => s' | None => s end in
-  match r, guard with
-  | None, _ :: _ => (s, false)
-  | _, _ =>
+  let paused := Some {| v_state := SPaused; v_reason := true |} in
+  match update_state s id SPaused guard true fget fput with
+  | None =>
+      match guard with
+      | _ :: _ => (s, false)           (* a manual pause that cannot be saved changes nothing *)
+      | [] => match find_task s id with
+              | None => (s, false)
+              | Some t => match mem t with None => (s, false) | Some _ => (release (upd s id (with_mem paused)) id (ttarget t), false) end
+              end
+      end
+  | Some s1 =>
       match find_task s1 id with
-      | None => (s1, match r with Some _ => true | None => false end)
-      | Some t =>
-          match mem t with
-          | None => (s1, match r with Some _ => true | None => false end)
-          | Some _ =>
-              let s2 := set_mem s1 id (Some {| v_state := SPaused; v_reason := true |}) in
-              (release s2 id (ttarget t), match r with Some _ => true | None => false end)
-          end
+      | None => (s1, true)
+      | Some t => match mem t with None => (s1, true) | Some _ => (release (upd s1 id (with_mem paused)) id (ttarget t), true) end
       end
   end.
 
@@ -166,6 +162,28 @@ Definition delete (s : st) (id : string) (fget fcommit : bool) : st * bool :=
   end.
 
 Definition in_mem (s : st) (id : string) : option view := match find_task s id with Some t => mem t | None => None end.
+
+(* ReloadTask for one stored task; k counts the tasks started so far (the fault label names the k-th) *)
+Definition reload_one (f : fault) (acc : st * nat) (t : trec) : st * nat :=
+  let '(s, k) := acc in
+  match sto t with
+  | None => (s, k)
+  | Some v =>
+      let s1 := g_add (set_mem s (tid t) (Some v)) (tid t) (v_state v) in
+      if auto_off t then
+        (if tstate_eqb (v_state v) SPaused then s1 else fst (pause_with s1 (tid t) [] false false), k)
+      else
+        let k' := S k in
+        let r := start s1 (tid t) (tstate_eqb (v_state v) SRunning) (fails f KPosGet k') false false in
+        (if snd r then fst r else fst (pause_with (fst r) (tid t) [] false false), k')
+  end.
+
+(* a crash: volatile parts are lost; the harness injects fresh entities for every target *)
+Definition crashed (s0 : st) : st :=
+  let s := {| ts := map (fun t => {| tid := tid t; ttarget := ttarget t; auto_off := auto_off t; mem := None; sto := sto t;
+                                     started := 0; reg := 0 |}) (ts s0);
+              ents := []; gi := []; gr := []; gp := [] |} in
+  fold_left (fun s t => ensure_ent s (ttarget t)) (ts s) s.
 
 (* codes: 0 = 200, 1 = 400, 2 = 500 *)
 Definition step (s0 : st) (o : op) : st * N :=
@@ -218,25 +236,9 @@ Definition step (s0 : st) (o : op) : st * N :=
            | None => (s0, 1%N)
            end
   | Restart f =>
-      (* volatile parts are lost; the harness injects fresh entities for every target *)
-      let s := {| ts := map (fun t => {| tid := tid t; ttarget := ttarget t; auto_off := auto_off t; mem := None; sto := sto t;
-                                         started := 0; reg := 0 |}) (ts s0);
-                  ents := []; gi := []; gr := []; gp := [] |} in
-      let s := fold_left (fun s t => ensure_ent s (ttarget t)) (ts s) s in
+      let s := crashed s0 in
       let stored := filter (fun t => match sto t with Some _ => true | None => false end) (ts s) in
-      (fst (fold_left (fun (acc : st * nat) t =>
-          let '(s, k) := acc in
-          match sto t with
-          | None => (s, k)
-          | Some v =>
-              let s1 := g_add (set_mem s (tid t) (Some v)) (tid t) (v_state v) in
-              if auto_off t then
-                (if tstate_eqb (v_state v) SPaused then s1 else fst (pause_with s1 (tid t) [] false false), k)
-              else
-                let k' := S k in
-                let '(s2, ok) := start s1 (tid t) (tstate_eqb (v_state v) SRunning) (fails f KPosGet k') false false in
-                (if ok then s2 else fst (pause_with s2 (tid t) [] false false), k')
-          end) stored (s, 0%nat)), 0%N)
+      (fst (fold_left (reload_one f) stored (s, 0%nat)), 0%N)
   end.
 
 Definition run (ops : list op) : st := fold_left (fun s o => fst (step s o)) ops init.
